@@ -190,7 +190,8 @@ type DeferStep struct {
 }
 
 // Step is what a scripted generator does when called for one (package, type).
-// Res: "" nil | "skip" | "skipw" (wrapped) | "ignore" | "ignorew" | "err" | "exit" | "kill" | "panic".
+// Res: "" nil | "skip" | "skipw" (wrapped) | "ignore" | "ignorew" | "err" | "exit" | "kill" | "panic"
+// | one of ErrKinds ("err-…": other error values) | one of SwallowedKinds (errkinds.go).
 type Step struct {
 	Body   string   `json:"body,omitempty"`
 	Res    string   `json:"res,omitempty"`
@@ -309,7 +310,7 @@ func resErr(res string) error {
 	case "err":
 		return errors.New("scripted failure")
 	}
-	return nil
+	return errOfKind(res) // errkinds.go: further error values ("err-…") and spellings of the two sentinels; nil otherwise
 }
 
 func die(res string) {
@@ -886,6 +887,13 @@ func CoqRes(res string) string {
 	case "ignore", "ignorew":
 		return "RIgnore"
 	case "err":
+		return "RErr"
+	case "skipc", "skipj":
+		return "RSkip"
+	case "ignorec", "ignorej":
+		return "RIgnore"
+	}
+	if IsErrRes(res) { // an error is an error, whatever its value (errkinds.go)
 		return "RErr"
 	}
 	return "RDie"
